@@ -95,9 +95,12 @@ def run(rep, tier, seed):
             if j == mine:
                 r_, _ = dir_rule(rnd, pd, d)
             else:
-                _, _, _, pdo = gen_parsed(rnd, stack)
-                pdo.direction = d
-                r_, _ = dir_rule(rnd, pdo, rnd.choice([DI.UP, DI.DOWN]))
+                if rnd.random() < 0.5:
+                    r_, _ = dir_rule(rnd, pd, d, kinds=('vs', 'vsv', 'lsb', 'ns'))      # applies as well: BEST has to weigh it
+                else:
+                    _, _, _, pdo = gen_parsed(rnd, stack)
+                    pdo.direction = d
+                    r_, _ = dir_rule(rnd, pdo, rnd.choice([DI.UP, DI.DOWN]))
             rs.append(RuleDescriptor(id=mk(ids[j], rnd.choice([L, R])), field_descriptors=r_.field_descriptors))
         nrs = [n_rule(r) for r in rs]
         from microschc.ruler.ruler import Ruler
@@ -107,9 +110,18 @@ def run(rep, tier, seed):
             case_match(b, pd, rs, klass='ruleset-own-descriptors:match', ruler=ruler)
         pd.direction = d
         cm = ContextManager(Context(id='c', description='', interface_id='i', parser_id=stack, ruleset=rs))
-        out = obs_bits(with_timeout(lambda: cm.compress(Buffer(pkt, len(pkt) * 8), direction=d)))
+        from microschc.manager.manager import MatchStrategy
         npd_d = dict(n_pdesc(pd), dir=DIRC[d])
         first = [nr for nr in nrs if ref_rule_applies(npd_d, nr)]
+        # BEST compresses with every applying rule: each candidate must be produced with the descriptors of the packet's direction
+        outs_ = [ref_compress(npd_d, nr, DIRC[d]) for nr in first]
+        if first and None not in outs_:
+            ob = obs_bits(with_timeout(lambda: cm.compress(Buffer(pkt, len(pkt) * 8), direction=d, match_strategy=MatchStrategy.BEST)))
+            wb = ('OK', min(outs_, key=len))
+            fails = [] if ob == wb else ['rule set with own alternatives per rule, BEST: compress gives %s, expected %s' % (str(ob)[:100], str(wb)[:100])]
+            line = ' '.join(['S', 'cmcompressp', stack, tb(b2s(pkt)), DIRC[d], 'B'] + rules_tokens(nrs))
+            b.add('ruleset-own-descriptors:compress-best', line, ob, parse_model_bits, fails, dict(layer='schc', op='cmcompress', stack=stack, packet=pkt.hex(), rules=nrs, direction=DIRC[d], strategy='best'), key=line)
+        out = obs_bits(with_timeout(lambda: cm.compress(Buffer(pkt, len(pkt) * 8), direction=d)))
         want = ('OK', ref_compress(npd_d, first[0], DIRC[d])) if first else ('EXC', 'RuleDescriptorMatchError')
         fails = [] if out == want else ['rule set with own alternatives per rule: compress gives %s, expected %s' % (str(out)[:100], str(want)[:100])]
         line = ' '.join(['S', 'cmcompressp', stack, tb(b2s(pkt)), DIRC[d], 'F'] + rules_tokens(nrs))
